@@ -39,7 +39,7 @@ Proof.
   assert (BW : forall q pr', get_proc q s' = Some pr' -> exists pr, get_proc q s = Some pr /\ pev pr' = pev pr /\ ptarget pr' = ptarget pr).
   { intros q pr' H. specialize (HP q). unfold pr_rel in HP. rewrite H in HP. destruct (get_proc q s) as [pr|]; [|contradiction]. exists pr. split; [reflexivity|exact HP]. }
   split; [|split].
-  - destruct HS as [A B C D E]. constructor.
+  - destruct HS as [A B C D E F0]. constructor.
     + intros p pr' H. destruct (BW _ _ H) as (pr & H0 & P1 & _). rewrite GE, P1. apply (A _ _ H0).
     + intros e ev p H K. rewrite GE in H. destruct (B _ _ _ H K) as (pr & H0 & P0).
       destruct (FW _ _ H0) as (pr' & H1 & P1 & _). exists pr'. split; [exact H1|congruence].
@@ -48,6 +48,7 @@ Proof.
     + intros i ev p H K. rewrite GE in H. destruct (D _ _ _ H K) as ((pr & C1) & C2). split; [|exact C2].
       destruct (FW _ _ C1) as (pr' & H1 & _). exists pr'. exact H1.
     + intros p pr' t H T. destruct (BW _ _ H) as (pr & H0 & _ & P2). rewrite GE. apply (E _ _ _ H0). congruence.
+    + intros p pr' H. destruct (BW _ _ H) as (pr & H0 & P1 & _). rewrite GE, P1. apply (F0 _ _ H0).
   - destruct HC as [A B C D E R0]. constructor.
     + intros e ev l i H. rewrite GE in H. apply A, H.
     + intros i Hin. rewrite GE. apply B, Hin.
@@ -77,7 +78,7 @@ Lemma invS_set_target p tg s :
   (forall t, tg = Some t -> exists tev, get_event t s = Some tev) ->
   invS s -> invS (upd_proc p (proc_set_target tg) s).
 Proof.
-  intros Ht [A B C D E].
+  intros Ht [A B C D E F0].
   assert (GP : forall q pr', get_proc q (upd_proc p (proc_set_target tg) s) = Some pr' ->
                exists pr, get_proc q s = Some pr /\ pev pr' = pev pr /\ (q <> p -> pr' = pr) /\ (q = p -> ptarget pr' = tg)).
   { intros q pr'. rewrite get_proc_upd. destruct (Nat.eqb q p) eqn:Eq.
@@ -98,6 +99,7 @@ Proof.
     destruct (Nat.eq_dec q p) as [->|N].
     + apply Ht. rewrite <- (P3 eq_refl). exact T.
     + rewrite (P2 N) in T. apply (E _ _ _ H0 T).
+  - intros q pr' H. destruct (GP _ _ H) as (pr & H0 & P1 & _). rewrite P1. apply (F0 _ _ H0).
 Qed.
 
 (* ------------------------------------------------------------------------------------------------ *)
@@ -396,7 +398,7 @@ Proof.
     - apply Nat.eqb_neq in E. exists ev1. repeat split; auto. intros N; contradiction. }
   assert (GP : forall q, get_proc q s1 = get_proc q s) by reflexivity.
   split; [|split].
-  - destruct HS as [A B C D E]. constructor.
+  - destruct HS as [A B C D E F0]. constructor.
     + intros p pr H. rewrite GP in H. destruct (A _ _ H) as (ev1 & H1 & K1). destruct (FW _ _ H1) as (ev0 & H0 & K0 & _).
       exists ev0. split; [exact H0|congruence].
     + intros e0 ev0 p H K. destruct (BW _ _ H) as (ev1 & H1 & K1 & _). rewrite GP. apply (B _ _ _ H1). congruence.
@@ -408,6 +410,8 @@ Proof.
       destruct X as [(_ & X & _)|(_ & ->)]; [left; exact X|exact C4].
     + intros p pr t H T. rewrite GP in H. destruct (E _ _ _ H T) as (tev & H1). destruct (FW _ _ H1) as (ev0 & H0 & _).
       exists ev0. exact H0.
+    + intros p pr H. rewrite GP in H. destruct (F0 _ _ H) as (iev & H1 & K1). destruct (FW _ _ H1) as (ev0 & H0 & K0 & _).
+      exists ev0. split; [exact H0|congruence].
   - destruct HC as [A B C D E R0]. constructor.
     + intros e0 ev0 l0 i H C0 Hin. destruct (BW _ _ H) as (ev1 & H1 & K1 & _ & _ & [(_ & X & _)|(_ & ->)]); [congruence|].
       eapply A; eassumption.
@@ -701,6 +705,7 @@ Proof.
     + intros e ev p H. rewrite NE in H. discriminate.
     + intros e ev p H. rewrite NE in H. discriminate.
     + intros p pr t H. rewrite NP in H. discriminate.
+    + intros p pr H. rewrite NP in H. discriminate.
   - constructor.
     + intros e ev l i H. rewrite NE in H. discriminate.
     + intros i [].
